@@ -139,6 +139,7 @@ def nameExprOf : Expr → NameExpr
   | .leaf .none => .none
   | .leaf (.bytes b) => .bytes b
   | .leaf (.string s) => .str s.toUTF8.toList
+  | .leaf (.hash b) => .hash b
   | _ => .other
 
 def classRank : AssetClass → Nat
